@@ -410,6 +410,14 @@ Proof.
       rewrite ID. lia.
 Qed.
 
+Lemma sendLoop_budget fuel t endv limit :
+  exists fs, out (sendLoop fuel t endv limit) = out t ++ fs /\
+             dcount fs <= Z.max 0 (cwnd (SN t) - outstanding (SN t)).
+Proof.
+  pose proof (sendLoop_spec fuel t endv limit) as H. cbv zeta in H.
+  destruct H as (_ & _ & _ & O & fs & E & D & _). exists fs. split; [exact E|]. lia.
+Qed.
+
 (* ------------------------------------------------------------------ sendData *)
 
 Lemma loopfields_tstate a b x : loopfields a b -> loopfields (a <| tstate := x |>) (b <| tstate := x |>).
